@@ -1,5 +1,6 @@
 """C27 — io_uring completions reach the call that submitted them (config core/io_uring; structural clauses)."""
 from rules.common import start
+from rules import wave2
 from rules import uring
 
 
@@ -17,4 +18,6 @@ def run(tier):
     uring.errno_rule(run, f, "C27-ERRNO", "C27-SETTLE")
     uring.userdata_rule(run, f, "C27-USERDATA")
     uring.token_rule(run, f, "C27-TOKEN")
+    # clauses added for the wave-2 seeds (rules/wave2.py; DESIGN 12a)
+    wave2.uring_direction_rule(run, f, "C27-DIRECTION")
     return run.finish()
